@@ -171,6 +171,10 @@ var vL2Commands = [][]string{
 // integer argument get that argument bounded (stated as outside the claim)
 var vL2BoundedInt = map[string]bool{"SETBIT": true, "SETRANGE": true, "LPOP": false, "RPOP": false}
 
+var vL2TimeArg = map[string]bool{"EXPIRE": true, "EXPIREAT": true, "PEXPIRE": true, "PEXPIREAT": true, "SETEX": true, "PSETEX": true}
+
+var vL2TimeValues = []string{"-9223372036854775808", "-1", "0", "1", "100", "4102444800", "9223372036854775807"}
+
 var vL2Keys = []string{"k", "k2", "k3", "k4", "k5"}
 
 const (
@@ -212,6 +216,12 @@ func vL2(mon int) {
 		case "$S":
 			args[i] = vStringN("s", 1)
 		case "$I":
+			if vL2TimeArg[t[0]] || (t[0] == "SET" && i > 2) || (t[0] == "GETEX" && i > 1) || (t[0] == "RESTORE" && i == 2) {
+				// time arithmetic on a fully symbolic integer is the subject of
+				// C07; here the argument comes from a table of boundary values
+				args[i] = vL2TimeValues[vChoice("t", len(vL2TimeValues))]
+				break
+			}
 			d := vDecimal("i")
 			if vL2BoundedInt[t[0]] && i == 2 {
 				n := vDecimalOf(d)
